@@ -178,7 +178,8 @@ Definition string_of_byte (c : N) : bytes :=
   if c <? 128 then [c] else [192 + c / 64; 128 + c mod 64].
 
 Definition illegalToken (l : lexer) : token * lexer :=
-  let l' := tokenBegins l in (newToken l' T_ILLEGAL (string_of_byte (cur l')), l').
+  let l' := tokenBegins l in
+  (mkToken T_ILLEGAL (string_of_byte (cur l')) (startLine l') (startCol l') (startLine l') (startCol l'), l').
 
 Definition inb (t : tok) (ts : list tok) : bool := existsb (tok_eqb t) ts.
 
@@ -231,13 +232,15 @@ Fixpoint readString_loop (r : bytes) (l : lexer) (quote : N) (acc : bytes) : lex
     else readString_loop r' l' quote (prevc :: acc)
   end.
 
-Definition readString (l : lexer) : bytes * lexer :=
+(* readString: (text, terminated, lexer) *)
+Definition readString (l : lexer) : bytes * bool * lexer :=
   let quote := cur l in
   let l0 := readChar (tokenBegins l) in
-  if cur l0 =? quote then ([], readChar l0) else
+  if cur l0 =? quote then ([], true, readChar l0) else
   let '(l1, acc) := readString_loop (rest l0) l0 quote [] in
-  let l2 := readChar l1 in
-  (replace_all [92; quote] [quote] (rev acc), l2).
+  let terminated := cur l1 =? quote in
+  let l2 := if terminated then readChar l1 else l1 in
+  (replace_all [92; quote] [quote] (rev acc), terminated, l2).
 
 Fixpoint skipComment_loop (r : bytes) (l : lexer) : lexer :=
   match r with
@@ -247,16 +250,11 @@ Fixpoint skipComment_loop (r : bytes) (l : lexer) : lexer :=
     else skipComment_loop r' (readChar l)
   end.
 
-Fixpoint readWhile0 (k : nat) (l : lexer) : lexer :=
-  match k with
-  | O => l
-  | S k' => if cur l =? 0 then l else readWhile0 k' (readChar l)
-  end.
-
-Definition skipComment (l : lexer) : lexer :=
+(* skipComment: (terminated, lexer) *)
+Definition skipComment (l : lexer) : bool * lexer :=
   let l1 := skipComment_loop (rest l) l in
   let l2 := setModes l1 true (isDirective l1) in
-  readWhile0 4 l2.
+  if cur l2 =? 0 then (false, l2) else (true, readN 4 l2).
 
 Definition bracesToken (l : lexer) (t : tok) (lit : bytes) : token * lexer :=
   let l0 := setModes l (negb (tok_eqb t T_LBRACES)) (isDirective l) in
@@ -285,7 +283,8 @@ Definition embeddedCodeToken (l : lexer) : token * lexer :=
       let l2 := if isDirective l1 && (parenCount l1 =? 0)%Z then setModes l1 true false else l1 in
       fixedToken l2 1 T_RPAREN [41]
     else if (c =? 34) || (c =? 39) then
-      let '(s, l1) := readString l in (newToken l1 T_STR s, l1)
+      let '(s, terminated, l1) := readString l in
+      (newToken l1 (if terminated then T_STR else T_ILLEGAL) s, l1)
     else if c =? 60 then
       if peekChar l =? 61 then fixedToken l 2 T_LTHAN_EQ [60; 61] else fixedToken l 1 T_LTHAN [60]
     else if c =? 62 then
@@ -316,8 +315,10 @@ Fixpoint nextToken (fuel : nat) (l : lexer) : option (token * lexer) :=
       let l2 := tokenBegins l1 in Some (newToken l2 T_EOF [], l2)
     else if (cur l1 =? 123) && (peekChar l1 =? 123) then
       let '(t, l2) := bracesToken l1 T_LBRACES [123; 123] in
-      if (cur l2 =? 45) && (peekChar l2 =? 45)
-      then nextToken fuel' (skipComment l2)
+      if (cur l2 =? 45) && (peekChar l2 =? 45) then
+        let '(terminated, l3) := skipComment l2 in
+        if terminated then nextToken fuel' l3
+        else Some (newToken l3 T_ILLEGAL [123; 123; 45; 45], l3)
       else Some (t, l2)
     else if negb (isHTML l1) && (cur l1 =? 125) && (peekChar l1 =? 125) && (braceCount l1 =? 0)%Z then
       Some (bracesToken l1 T_RBRACES [125; 125])
@@ -329,19 +330,25 @@ Fixpoint nextToken (fuel : nat) (l : lexer) : option (token * lexer) :=
 Definition nextTok (l : lexer) : option (token * lexer) :=
   nextToken (S (length (rest l))) l.
 
-Definition is_final (t : tok) : bool := tok_eqb t T_EOF || tok_eqb t T_ILLEGAL.
+Definition token_eqb (a b : token) : bool :=
+  tok_eqb (ttype a) (ttype b) && bytes_eqb (tlit a) (tlit b) &&
+  Nat.eqb (tsl a) (tsl b) && Nat.eqb (tsc a) (tsc b) && Nat.eqb (tel a) (tel b) && Nat.eqb (tec a) (tec b).
 
-(* The token stream up to and including the first EOF or ILLEGAL.
+(* The token stream up to and including the first EOF, or up to an ILLEGAL token that the
+   lexer repeats (illegalToken does not consume: the same token comes back forever).
    None: out of fuel (excluded by lex_total). *)
-Fixpoint lex_loop (fuel : nat) (l : lexer) : option (list token) :=
+Fixpoint lex_loop (fuel : nat) (l : lexer) (prev : option token) : option (list token) :=
   match fuel with
   | O => None
   | S fuel' =>
     match nextTok l with
     | None => None
     | Some (t, l') =>
-      if is_final (ttype t) then Some [t]
-      else match lex_loop fuel' l' with
+      if tok_eqb (ttype t) T_EOF then Some [t]
+      else if tok_eqb (ttype t) T_ILLEGAL &&
+              match prev with Some p => token_eqb p t | None => false end
+      then Some []
+      else match lex_loop fuel' l' (Some t) with
            | Some ts => Some (t :: ts)
            | None => None
            end
@@ -349,4 +356,4 @@ Fixpoint lex_loop (fuel : nat) (l : lexer) : option (list token) :=
   end.
 
 Definition lex_all (input : bytes) : option (list token) :=
-  lex_loop (length input + 2) (newLexer input).
+  lex_loop (List.length input + 3) (newLexer input) None.
